@@ -71,7 +71,8 @@ def slow_subscriber(run):
 
 def check(run, replay_path=None):
     mdibcommon.model_check(run)
-    variants = [dict(periodic_reports_interval=100000), dict(async_mgr=True, periodic_reports_interval=100000)]
+    variants = [dict(periodic_reports_interval=100000), dict(async_mgr=True, periodic_reports_interval=100000),
+                dict(transport='fullstack', chunk_size=300, periodic_reports_interval=100000)]
     mirrorcommon.run_family(run, 'C04', run.pick(100, 3000), variants, seed_offset=7)
     # delivery order under concurrently writing threads (all interleavings of the recorded thread programs)
     from verif.checks.c07 import run_scenarios
